@@ -505,6 +505,18 @@ def gen_arrays(rng, tier, codecs=None):
             extra = vals + [rng.choice(vals) for _ in range(rng.randint(1, 300))]
             rng.shuffle(extra)
             ops.append(f"dict.rt {explicit(extra)}")
+    # Elias bit streams: every code length at every bit phase of the writer (k one-bit codes first), odd / even /
+    # all-ones / single-bit payloads (a word-window fast path that drops a bit needs one exact (phase, length) pair)
+    for c in ("egamma", "edelta"):
+        if c in codecs:
+            for bl in range(1, 65):
+                pats = {(1 << (bl - 1)), (1 << bl) - 1, (1 << (bl - 1)) | 1, (1 << (bl - 1)) | (rng.getrandbits(bl) | 1) & ((1 << bl) - 1)}
+                for k in range(8):
+                    for v in sorted(pats):
+                        if tier == "quick" and rng.random() < 0.5:
+                            continue
+                        pre = [1] * k if rng.random() < 0.7 else [rng.choice([1, 2, 3])] * k
+                        ops.append(f"{c}.rt {explicit(pre + [v, 1, 2])}")
     # zig-zag definition
     for s in [0, 1, -1, 2, -2, 63, -64, (1 << 62), -(1 << 62), (1 << 63) - 1, -(1 << 63), -(1 << 63) + 1]:
         ops.append(f"zigzag {s}")
@@ -785,6 +797,16 @@ def gen_dim(rng, tier):
             for r in rvals:
                 for c in cvals:
                     ops.append(f"dim.pair {hx(r)} {hx(c)}")
+    # column counts whose stored width has its top bit set (a sign-extended or truncated re-read of the count
+    # moves every cell below row 0): huge sparse matrices, only a few pages of which are ever touched
+    for cols in [(1 << 32) - 1, 1 << 31, (1 << 31) + 5, (1 << 24) - 1, 1 << 23, 0x8000, 0xFFFF, 0x80, 0xFF,
+                 (1 << 32) + 7, (1 << 33) - 1]:
+        for rows in (2, 3):
+            ops.append(f"dim.far rows={hx(rows)} cols={hx(cols)} w=0")
+        if cols <= (1 << 32):
+            ops.append(f"dim.far rows=2 cols={hx(cols)} w=1")
+        if cols <= (1 << 31):
+            ops.append(f"dim.far rows=3 cols={hx(cols)} w={rng.choice([2, 3, 4, 8])}")
     # matrices
     n = 150 if tier == "quick" else 3000
     for _ in range(n):
